@@ -1,6 +1,412 @@
 package c14
 
-import "verif/verdict"
+import (
+	"bytes"
+	"context"
+	"fmt"
+	"math/rand"
+	"net"
+	"net/http"
+	"os"
+	"strings"
+	"sync"
+	"time"
 
-func runTierBChild(c *verdict.Ctx, idx int, out string) {}
-func runTierBCase(c *verdict.Ctx, dir string, idx int)  {}
+	"github.com/tendermint/tendermint/libs/log"
+	"github.com/tendermint/tendermint/light"
+	ctypes "github.com/tendermint/tendermint/rpc/core/types"
+	rpcserver "github.com/tendermint/tendermint/rpc/jsonrpc/server"
+	rpctypes "github.com/tendermint/tendermint/rpc/jsonrpc/types"
+	"github.com/tendermint/tendermint/statesync"
+	"github.com/tendermint/tendermint/types"
+
+	"verif/chaingen"
+	"verif/verdict"
+)
+
+// Tier B: the real light-client state provider (statesync.NewLightClientStateProvider)
+// against three JSON-RPC servers (rpc/jsonrpc/server) answering commit /
+// validators / consensus_params from chaingen; up to two of them lie or are
+// unhelpful.  Whatever AppHash / State / Commit return without error must be the
+// canonical values: nothing a lying server claimed may end up in them.
+
+type tbLie struct {
+	Mode    string `json:"mode"`    // honest | unsigned | minority | fork | validators | priorities | params | silent
+	Field   string `json:"field"`   // header field falsified (unsigned / minority / fork)
+	Heights string `json:"heights"` // S | S+1 | S+2 | all
+	DelayMs int    `json:"delay_ms,omitempty"`
+}
+
+type tbCase struct {
+	Case      int      `json:"case"`
+	Stream    string   `json:"stream"`
+	ChainSeed int64    `json:"chain_seed"`
+	S         int64    `json:"snapshot_height"`
+	Servers   [3]tbLie `json:"servers"` // [0] = primary, [1], [2] = witnesses
+}
+
+type tbServer struct {
+	c      *chaingen.Chain
+	lie    tbLie
+	s      int64
+	forged []byte
+	addr   string
+	ln     net.Listener
+
+	mu     sync.Mutex
+	served map[string]int
+}
+
+func (s *tbServer) liesAt(h int64) bool {
+	switch s.lie.Heights {
+	case "S":
+		return h == s.s
+	case "S+1":
+		return h == s.s+1
+	case "S+2":
+		return h == s.s+2
+	}
+	return h >= s.s
+}
+
+func (s *tbServer) count(k string) {
+	s.mu.Lock()
+	s.served[k]++
+	s.mu.Unlock()
+}
+
+func (s *tbServer) height(p *int64) (int64, error) {
+	tip := s.c.Height()
+	h := tip
+	if p != nil {
+		h = *p
+	}
+	if h > tip {
+		return 0, fmt.Errorf("height %d must be less than or equal to the current blockchain height %d", h, tip)
+	}
+	if h < 1 {
+		return 0, fmt.Errorf("height must be greater than 0, but got %d", h)
+	}
+	if s.lie.Mode == "silent" && s.liesAt(h) {
+		s.count("silent")
+		if s.lie.DelayMs > 0 {
+			time.Sleep(time.Duration(s.lie.DelayMs) * time.Millisecond) // the unhelpful witness answers last
+		}
+		return 0, fmt.Errorf("height %d is not available, lowest height is %d", h, tip+1)
+	}
+	return h, nil
+}
+
+func (s *tbServer) lightBlock(h int64) (*types.SignedHeader, *types.ValidatorSet) {
+	rec := s.c.Hist[h]
+	hdr := rec.Block.Header
+	commit := rec.Commit
+	vals := rec.StateBefore.Validators.Copy()
+	if s.liesAt(h) {
+		switch s.lie.Mode {
+		case "unsigned", "minority", "fork":
+			switch s.lie.Field {
+			case "AppHash":
+				hdr.AppHash = s.forged
+			case "LastResultsHash":
+				hdr.LastResultsHash = s.forged
+			case "NextValidatorsHash":
+				hdr.NextValidatorsHash = s.forged
+			case "ConsensusHash":
+				hdr.ConsensusHash = s.forged
+			case "Time":
+				hdr.Time = hdr.Time.Add(time.Second)
+			}
+			if s.lie.Mode != "unsigned" {
+				bid := types.BlockID{Hash: hdr.Hash(), PartSetHeader: rec.BlockID.PartSetHeader}
+				var flag func(int, *types.Validator) types.BlockIDFlag
+				if s.lie.Mode == "minority" {
+					flag = func(idx int, _ *types.Validator) types.BlockIDFlag {
+						if idx == 0 {
+							return types.BlockIDFlagCommit
+						}
+						return types.BlockIDFlagAbsent
+					}
+				}
+				commit = s.c.SignCommit(rec.StateBefore.Validators, h, 0, bid, flag, func(idx int) time.Time { return s.c.VoteTime(h, idx) })
+			}
+			s.count("header " + s.lie.Field + " " + s.lie.Mode)
+		case "validators":
+			vs := vals.Copy()
+			vs.Validators[0] = vs.Validators[0].Copy()
+			vs.Validators[0].VotingPower += 3
+			vals = vs
+			s.count("validators")
+		case "priorities":
+			// same keys and powers (the validators hash still matches), other proposer priorities
+			vs := vals.Copy()
+			for i := range vs.Validators {
+				vs.Validators[i] = vs.Validators[i].Copy()
+			}
+			n := len(vs.Validators)
+			first := vs.Validators[0].ProposerPriority
+			for i := 0; i < n-1; i++ {
+				vs.Validators[i].ProposerPriority = vs.Validators[i+1].ProposerPriority
+			}
+			vs.Validators[n-1].ProposerPriority = first + 1
+			vals = vs
+			s.count("priorities")
+		}
+	}
+	return &types.SignedHeader{Header: &hdr, Commit: commit}, vals
+}
+
+func (s *tbServer) commit(ctx *rpctypes.Context, heightPtr *int64) (*ctypes.ResultCommit, error) {
+	h, err := s.height(heightPtr)
+	if err != nil {
+		return nil, err
+	}
+	sh, _ := s.lightBlock(h)
+	return &ctypes.ResultCommit{SignedHeader: *sh, CanonicalCommit: true}, nil
+}
+
+func (s *tbServer) validators(ctx *rpctypes.Context, heightPtr *int64, pagePtr, perPagePtr *int) (*ctypes.ResultValidators, error) {
+	h, err := s.height(heightPtr)
+	if err != nil {
+		return nil, err
+	}
+	_, vals := s.lightBlock(h)
+	return &ctypes.ResultValidators{BlockHeight: h, Validators: vals.Validators, Count: len(vals.Validators), Total: len(vals.Validators)}, nil
+}
+
+func (s *tbServer) params(ctx *rpctypes.Context, heightPtr *int64) (*ctypes.ResultConsensusParams, error) {
+	h, err := s.height(heightPtr)
+	if err != nil {
+		return nil, err
+	}
+	p := s.c.Hist[h].StateBefore.ConsensusParams
+	if s.lie.Mode == "params" && s.liesAt(h) {
+		p.Block.MaxBytes += 4096
+		s.count("params")
+	}
+	return &ctypes.ResultConsensusParams{BlockHeight: h, ConsensusParams: p}, nil
+}
+
+func (s *tbServer) start() error {
+	routes := map[string]*rpcserver.RPCFunc{
+		"commit":           rpcserver.NewRPCFunc(s.commit, "height"),
+		"validators":       rpcserver.NewRPCFunc(s.validators, "height,page,per_page"),
+		"consensus_params": rpcserver.NewRPCFunc(s.params, "height"),
+	}
+	mux := http.NewServeMux()
+	rpcserver.RegisterRPCFuncs(mux, routes, log.NewNopLogger())
+	cfg := rpcserver.DefaultConfig()
+	ln, err := rpcserver.Listen("tcp://127.0.0.1:0", cfg)
+	if err != nil {
+		return err
+	}
+	s.ln = ln
+	s.addr = "http://" + ln.Addr().String()
+	go func() { _ = rpcserver.Serve(ln, mux, log.NewNopLogger(), cfg) }()
+	return nil
+}
+
+func genTierB(r *rand.Rand, idx int) *tbCase {
+	tc := &tbCase{Case: idx, Stream: "tierb", ChainSeed: 1 + int64(r.Intn(4))}
+	tc.S = 3 + int64(r.Intn(9)) // 3 .. 11, chain has 14 heights
+	fields := []string{"AppHash", "LastResultsHash", "NextValidatorsHash", "ConsensusHash", "Time"}
+	modes := []string{"unsigned", "minority", "fork", "validators", "params", "priorities"}
+	hs := []string{"S", "S+1", "S+2", "all"}
+	lie := func() tbLie {
+		return tbLie{Mode: modes[r.Intn(len(modes))], Field: fields[r.Intn(len(fields))], Heights: hs[r.Intn(len(hs))]}
+	}
+	for i := range tc.Servers {
+		tc.Servers[i] = tbLie{Mode: "honest"}
+	}
+	switch idx % 6 {
+	case 0: // primary lies, witnesses honest
+		tc.Servers[0] = lie()
+	case 1: // a witness lies
+		tc.Servers[1] = lie()
+	case 2: // primary lies, one witness unhelpful
+		tc.Servers[0] = lie()
+		tc.Servers[2] = tbLie{Mode: "silent", Heights: "all"}
+	case 3: // primary serves a fully signed fork, one witness answers garbage, the other has nothing
+		tc.Servers[0] = tbLie{Mode: "fork", Field: fields[r.Intn(len(fields))], Heights: hs[r.Intn(len(hs))]}
+		tc.Servers[1] = tbLie{Mode: []string{"unsigned", "minority"}[r.Intn(2)], Field: fields[r.Intn(len(fields))], Heights: "all"}
+		tc.Servers[2] = tbLie{Mode: "silent", Heights: "all", DelayMs: 150 * r.Intn(2)}
+	case 4: // primary and one witness tell the same lie
+		l := lie()
+		tc.Servers[0], tc.Servers[1] = l, l
+	case 5: // everybody honest, or only unhelpful witnesses
+		if r.Intn(2) == 0 {
+			tc.Servers[1+r.Intn(2)] = tbLie{Mode: "silent", Heights: hs[r.Intn(len(hs))]}
+		}
+	}
+	return tc
+}
+
+func runTierBCase(c *verdict.Ctx, dir string, idx int) {
+	r := c.Rand("tierb", idx)
+	tc := genTierB(r, idx)
+	chain := buildChain(&Scenario{ChainSeed: tc.ChainSeed, ChainLen: 14, App: AppSpec{Version: 5}})
+	defer chain.Close()
+	forged := randBytes(r, 32)
+	var servers []*tbServer
+	var addrs []string
+	for i := range tc.Servers {
+		s := &tbServer{c: chain, lie: tc.Servers[i], s: tc.S, forged: forged, served: map[string]int{}}
+		if err := s.start(); err != nil {
+			c.Inconclusive("tier B: cannot start rpc server")
+			return
+		}
+		defer s.ln.Close()
+		servers = append(servers, s)
+		addrs = append(addrs, s.addr)
+	}
+	c.Eval()
+	truth := providerState(chain, tc.S)
+	tcommit := chain.Hist[tc.S].Commit
+
+	type res struct {
+		what     string
+		err      error
+		bad      []string
+		prio     bool // proposer priorities differ from the canonical ones
+		proposer bool // only the Proposer pointer differs
+	}
+	var results []res
+	done := make(chan struct{})
+	var panicked interface{}
+	go func() {
+		defer close(done)
+		defer func() { panicked = recover() }()
+		ctx, cancel := context.WithTimeout(context.Background(), 60*time.Second)
+		defer cancel()
+		sp, err := statesync.NewLightClientStateProvider(ctx, chain.ChainID, chain.Genesis.Version, 1, addrs,
+			light.TrustOptions{Period: 100 * 365 * 24 * time.Hour, Height: 1, Hash: chain.Hist[1].Block.Hash()}, log.NewNopLogger())
+		if err != nil {
+			results = append(results, res{what: "NewLightClientStateProvider", err: err})
+			return
+		}
+		ah, err := sp.AppHash(ctx, uint64(tc.S))
+		rr := res{what: "AppHash", err: err}
+		if err == nil && !bytes.Equal(ah, truth.AppHash) {
+			rr.bad = append(rr.bad, fmt.Sprintf("app hash %X, canonical %X", ah, truth.AppHash))
+		}
+		results = append(results, rr)
+		st, err := sp.State(ctx, uint64(tc.S))
+		rr = res{what: "State", err: err}
+		if err == nil {
+			// the validator sets are compared in three layers: what the validators hash commits to
+			// (keys, powers), the proposer priorities, and the Proposer pointer
+			norm := st.Copy()
+			for _, pair := range [][2]*types.ValidatorSet{{norm.LastValidators, truth.LastValidators}, {norm.Validators, truth.Validators}, {norm.NextValidators, truth.NextValidators}} {
+				got, want := pair[0], pair[1]
+				if got == nil || want == nil || len(got.Validators) != len(want.Validators) {
+					continue
+				}
+				same := true
+				for i := range got.Validators {
+					g, w := got.Validators[i], want.Validators[i]
+					if !bytes.Equal(g.Address, w.Address) || !g.PubKey.Equals(w.PubKey) || g.VotingPower != w.VotingPower {
+						same = false
+					}
+				}
+				if !same {
+					continue // reported through the full comparison below
+				}
+				prio := false
+				for i := range got.Validators {
+					if got.Validators[i].ProposerPriority != want.Validators[i].ProposerPriority {
+						prio = true
+						got.Validators[i].ProposerPriority = want.Validators[i].ProposerPriority
+					}
+				}
+				if prio {
+					rr.prio = true
+				}
+				if got.Proposer != nil && want.Proposer != nil && (!bytes.Equal(got.Proposer.Address, want.Proposer.Address) || got.Proposer.ProposerPriority != want.Proposer.ProposerPriority) {
+					if !bytes.Equal(got.Proposer.Address, want.Proposer.Address) && !prio {
+						rr.proposer = true
+					}
+					got.Proposer = want.Proposer.Copy()
+				}
+			}
+			if !bytes.Equal(stateBytes(norm), stateBytes(truth)) {
+				rr.bad = append(rr.bad, "state fields: "+strings.Join(stateDiff(hexs(stateBytes(norm)), hexs(stateBytes(truth))), ","))
+			}
+		}
+		results = append(results, rr)
+		cm, err := sp.Commit(ctx, uint64(tc.S))
+		rr = res{what: "Commit", err: err}
+		if err == nil && !bytes.Equal(commitBytes(cm), commitBytes(tcommit)) {
+			rr.bad = append(rr.bad, "commit differs from the canonical commit")
+		}
+		results = append(results, rr)
+	}()
+	select {
+	case <-done:
+	case <-time.After(100 * time.Second):
+		c.Inconclusive("tier B: state provider did not return within 100 s")
+		return
+	}
+	if panicked != nil {
+		c.Inconclusive(fmt.Sprintf("tier B: panic in light client / provider: %v", panicked))
+		return
+	}
+	served := map[string]int{}
+	for i, s := range servers {
+		s.mu.Lock()
+		for k, v := range s.served {
+			role := "witness"
+			if i == 0 {
+				role = "primary"
+			}
+			served[role+" "+k] += v
+			c.Count("tier B lie served: "+role+" "+k, int64(v))
+		}
+		s.mu.Unlock()
+	}
+	outcome := ""
+	for _, rr := range results {
+		if rr.err != nil {
+			outcome += rr.what + ":err "
+			c.Count("tier B "+rr.what+" refused", 1)
+		} else {
+			outcome += rr.what + ":ok "
+			c.Count("tier B "+rr.what+" returned a value", 1)
+		}
+		if len(rr.bad) > 0 {
+			c.Violation("tierb-unverified-value-in-"+strings.ToLower(rr.what),
+				fmt.Sprintf("the light-client state provider's %s(%d) returned without error but %s; servers: primary %+v, witnesses %+v %+v",
+					rr.what, tc.S, strings.Join(rr.bad, "; "), tc.Servers[0], tc.Servers[1], tc.Servers[2]),
+				map[string]interface{}{"stream": "tierb", "case": idx, "tier_b_case": tc, "lies_served": served, "outcome": outcome})
+		}
+	}
+	for _, rr := range results {
+		detail := map[string]interface{}{"stream": "tierb", "case": idx, "tier_b_case": tc, "lies_served": served, "outcome": outcome}
+		if rr.prio {
+			c.Violation("tierb-proposer-priorities-from-rpc-unverified",
+				fmt.Sprintf("State(%d) returned validator sets whose ProposerPriority values differ from the canonical ones: they are copied from the primary's /validators answer and nothing the light client verifies commits to them; servers: primary %+v", tc.S, tc.Servers[0]), detail)
+		}
+		if rr.proposer {
+			c.Violation("tierb-validator-set-proposer-not-canonical",
+				fmt.Sprintf("State(%d) returned a validator set with the canonical keys, powers and priorities but another Proposer (types.ValidatorSetFromExistingValidators takes the validator with the lowest priority); servers: %+v", tc.S, tc.Servers), detail)
+		}
+	}
+	if len(served) > 0 {
+		keys := ""
+		for k := range served {
+			keys += k + ";"
+		}
+		c.Distinct("B", fmt.Sprintf("%+v", tc.Servers), outcome)
+		_ = keys
+	}
+	if os.Getenv("VERIF_C14_VERBOSE") != "" {
+		fmt.Printf("tierB case %d: servers=%+v served=%v outcome=%s\n", idx, tc.Servers, served, outcome)
+		for _, rr := range results {
+			if rr.err != nil {
+				fmt.Printf("    %s: %v\n", rr.what, rr.err)
+			}
+		}
+	}
+	if c.WantSample() && idx%7 == 3 {
+		c.Sample(map[string]interface{}{"tier": "B", "case": tc, "lies_served": served, "outcome": outcome})
+	}
+}
